@@ -48,6 +48,38 @@ def nt_pair(c):
 
 
 # ---------------------------------------------------------------------------------------- C09
+def bind_steps(res, rd, rng, pool, n, model, op, module, cfg, name, fold_adds=False):
+    import p_hist
+    rng.shuffle(pool)
+    sample = [{"id": c["id"], "op": op, "sel": c["sel"], "A": c["A"], "B": c["B"]} for c in pool[:n]]
+    cf = os.path.join(rd, name + ".cases.ndjson")
+    vlib.write_ndjson(cf, sample)
+    items = []
+    for sh in vlib.drive(cf, os.path.join(rd, name + ".ev"), timeout_ms=3000):
+        for ev in vlib.read_ndjson(sh):
+            if ev.get("outcome") == "ok" and ev["res"]["events"] and ev["res"]["events"][0].get("e") == "Start":
+                evs = ev["res"]["events"]
+                if fold_adds:       # an Add event belongs to the Step before it
+                    out = []
+                    for e in evs:
+                        if e["e"] == "Add":
+                            out[-1]["adds"].append({"X": e["X"], "Y": e["Y"]})
+                        else:
+                            out.append(dict(e, adds=[]) if e["e"] == "Step" else e)
+                    evs = out
+                items.append(({"id": ev.get("id"), "kind": name, "A": ev["A"], "B": ev["B"]}, evs))
+    mb = res.extra.setdefault("model_binding", {})
+    if items:
+        vb = p_hist.tlc_validate_seq(module, cfg, items, rd, name, emit_reset=False)
+        res.add_validation(vb)
+        mb[model] = {"executions": len(items), "step_events_accepted": vb["events"], "diverged": len(vb["fails"]),
+                     "first_divergence": ({"case": vb["fails"][0][0], "at_event": vb["fails"][0][2]} if vb["fails"] else None)}
+        if vb["fails"]:
+            print("MODEL-BINDING-DIVERGED model=%s executions=%d diverged>=%d (evidence only, not a violation)" % (model, len(items), len(vb["fails"])))
+    else:
+        mb[model] = "no step events recorded (hook absent?)"
+
+
 def check_C09(tier, seed, res, replay=None):
     rd = vlib.rundir("C09", tier)
     res.rule = ("pairs of NFAs of the TLC-enumerated bound (<=2 states, <=2 edges over {a,b}, every start/final set; sampled in quick), killer inputs from the "
@@ -105,27 +137,13 @@ def check_C09(tier, seed, res, replay=None):
         v = vlib.tlc_validate("TraceFA.tla", [ef])
         res.add_validation(v)
         res.report_fails(v["fails"], os.path.join(vlib.OUT, "viol"))
-    # step-level binding of the Layer-2 model: recorded executions of the real antichain algorithm must be behaviours of FAAntichain
-    import p_hist
-    pool = [c for c in cases if c["sel"] == "anti" and nt_pair(c)]
-    rng.shuffle(pool)
-    sample = [{"id": c["id"], "op": "faantitrace", "A": c["A"], "B": c["B"]} for c in pool[:12000 if tier == "thorough" else 2500]]
-    cf = os.path.join(rd, "bind.cases.ndjson")
-    vlib.write_ndjson(cf, sample)
-    items = []
-    for sh in vlib.drive(cf, os.path.join(rd, "bind.ev"), timeout_ms=3000):
-        for ev in vlib.read_ndjson(sh):
-            if ev.get("outcome") == "ok" and ev["res"]["events"] and ev["res"]["events"][0].get("e") == "Start":
-                items.append(({"id": ev.get("id"), "kind": "faanti", "A": ev["A"], "B": ev["B"]}, ev["res"]["events"]))
-    if items:
-        vb = p_hist.tlc_validate_seq("TraceFAAnti.tla", "TraceFAAnti.cfg", items, rd, "bind", emit_reset=False)
-        res.add_validation(vb)
-        res.extra["model_binding"] = {"FAAntichain": {"executions": len(items), "step_events_accepted": vb["events"], "diverged": len(vb["fails"]),
-                                                      "first_divergence": ({"case": vb["fails"][0][0], "at_event": vb["fails"][0][2]} if vb["fails"] else None)}}
-        if vb["fails"]:
-            print("MODEL-BINDING-DIVERGED model=FAAntichain executions=%d diverged>=%d (evidence only, not a violation)" % (len(items), len(vb["fails"])))
-    else:
-        res.extra["model_binding"] = {"FAAntichain": "no step events recorded (hook absent?)"}
+    # step-level binding of the Layer-2 models: recorded executions of the real algorithms must be behaviours of
+    # FAAntichain / FACongr (evidence only: a divergence is reported as MODEL-BINDING-DIVERGED, never as a violation)
+    nbind = 12000 if tier == "thorough" else 2500
+    bind_steps(res, rd, rng, [c for c in cases if c["sel"] == "anti" and nt_pair(c)][:], nbind, "FAAntichain", "faantitrace", "TraceFAAnti.tla", "TraceFAAnti.cfg", "bind")
+    for sel, order in (("cd", "depth"), ("cb", "breadth")):
+        bind_steps(res, rd, rng, [c for c in cases if c["sel"] == sel and nt_pair(c)], nbind // 2, "FACongr-" + order, "facongrtrace",
+                   "TraceFACongr.tla", "TraceFACongr_%s.cfg" % order, "bind" + sel, fold_adds=True)
     # Layer 0 self-check and Layer 2 model (safety + liveness over every pick order)
     shards = list(range(64)) if tier == "thorough" else [(seed * 5 + i * 4) % 64 for i in range(16)]
     m = vlib.tlc_sharded_check("FAcheck.tla", "FAcheck.cfg", 64, sorted(set(shards)))
@@ -135,6 +153,13 @@ def check_C09(tier, seed, res, replay=None):
     from p_ta import model_with_mutants
     model_with_mutants(res, "FAAntichain.tla", "FAAntichain4.cfg" if tier == "thorough" else "FAAntichain.cfg",
                        ["MemoConverse", "MemoConverseLive"] if tier == "thorough" else [], "FAAntichain", timeout=3000)
+    # the congruence algorithm as written, both search orders (and, in thorough, the idealised design without the
+    # empty-set cache quirk): safety + termination over every symbol order
+    model_with_mutants(res, "FACongr.tla", "FACongr3.cfg" if tier == "thorough" else "FACongr.cfg",
+                       ["MemoBySetOnly", "KeepPopped", "InitNoFinalCheck", "DropHalfEmpty"] if tier == "thorough" else [], "FACongr", timeout=3000)
+    res.add_model(vlib.tlc_model("FACongr.tla", "FACongrB3.cfg" if tier == "thorough" else "FACongrB.cfg", timeout=3000, heap="16g"))
+    if tier == "thorough":
+        res.add_model(vlib.tlc_model("FACongr.tla", "FACongrIdeal.cfg", timeout=3000, heap="16g"))
 
 
 # ---------------------------------------------------------------------------------------- C10
